@@ -428,3 +428,53 @@ fn enum_rows_resp_only(out: &mut Out) {
         }
     }
 }
+
+/// Harness-only exploration (not judged by TLC): every one of the 2^32 f32 bit patterns is formatted and read back
+/// with the library's own parser; finite values must come back bit-for-bit, NaN/inf as the SCPI sentinels, and the
+/// text must consist of NRf characters only. Reports the first few failures.
+pub fn f32_sweep(args: &[String]) -> i32 {
+    let threads = arg_u64(args, "--threads", 12) as u32;
+    let stride = arg_u64(args, "--stride", 1) as u64;
+    let bad = std::sync::Arc::new(std::sync::Mutex::new(Vec::<Value>::new()));
+    let count = std::sync::Arc::new(std::sync::atomic::AtomicU64::new(0));
+    let mut hs = vec![];
+    for t in 0..threads {
+        let bad = bad.clone();
+        let count = count.clone();
+        hs.push(std::thread::spawn(move || {
+            let mut buf: Vec<u8> = Vec::with_capacity(64);
+            let mut n = 0u64;
+            let mut bits = t as u64 * stride;
+            while bits <= u32::MAX as u64 {
+                let x = f32::from_bits(bits as u32);
+                buf.clear();
+                let ok = x.format_response_data(&mut buf).is_ok();
+                let good = if !ok {
+                    false
+                } else if x.is_nan() {
+                    buf == b"9.91E+37"
+                } else if x.is_infinite() {
+                    buf == if x < 0.0 { &b"-9.9E+37"[..] } else { &b"9.9E+37"[..] }
+                } else {
+                    buf.iter().all(|c| c.is_ascii_digit() || b".eE+-".contains(c))
+                        && first_token(&buf).and_then(|t| f32::try_from(t).ok()).map(|y| y.to_bits()) == Some(bits as u32)
+                };
+                if !good {
+                    let mut g = bad.lock().unwrap();
+                    if g.len() < 20 {
+                        g.push(json!({"bits": bits, "text": lossy(&buf)}));
+                    }
+                }
+                n += 1;
+                bits += threads as u64 * stride;
+            }
+            count.fetch_add(n, std::sync::atomic::Ordering::Relaxed);
+        }));
+    }
+    for h in hs {
+        let _ = h.join();
+    }
+    let b = bad.lock().unwrap();
+    println!("{}", json!({"summary": true, "patterns": count.load(std::sync::atomic::Ordering::Relaxed), "bad": b.len(), "examples": *b}));
+    0
+}
